@@ -55,7 +55,8 @@ def defaults_false(prog, rep):
         pairs = list(zip(params, defaults)) + list(zip(a.kwonlyargs, a.kw_defaults))
         for p, d in pairs:
             if p.arg in FLAG_NAMES:
-                ok = isinstance(d, ast.Constant) and d.value is False
+                # a parameter without a default (callers must decide) cannot silently allow anything; a default must be False
+                ok = d is None or (isinstance(d, ast.Constant) and d.value is False)
                 rep.oblige(rid, ok, where=fn.qual, what=f"{p.arg}={ast.unparse(d) if d is not None else '<required>'}")
                 if not ok:
                     rep.add(Finding("C12", rid, fn.module, fn.qual, f"{p.arg}={ast.unparse(d) if d is not None else '<required>'}",
